@@ -180,10 +180,20 @@ fn apply_sop(s: &mut Scorer, clock: &mut u64, op: &SOp) {
 }
 
 fn scorer_obs(s: &Scorer, graph: &Graph) -> String {
+	scorer_obs_with(s, graph, true)
+}
+
+/// `diversity`: switch on the probing-diversity term, the only one that reads the scorer's
+/// (unpersisted) `last_update_time`.
+fn scorer_obs_with(s: &Scorer, graph: &Graph, diversity: bool) -> String {
 	let mut out = String::new();
 	let mut fee = ProbabilisticScoringFeeParameters::default();
 	fee.historical_liquidity_penalty_multiplier_msat = 10_000;
 	fee.historical_liquidity_penalty_amount_multiplier_msat = 64;
+	// every optional penalty term is switched on so that every persisted field is observable
+	fee.probing_diversity_penalty_msat = if diversity { 250 } else { 0 };
+	fee.liquidity_penalty_multiplier_msat = 30_000;
+	fee.liquidity_penalty_amount_multiplier_msat = 192;
 	let ro = graph.read_only();
 	for (scid, a, b, cap) in CHANS.iter() {
 		for target in [*a, *b] {
@@ -254,7 +264,33 @@ fn scorer_dfs(graph: &Arc<Graph>, logger: &Arc<McLogger>, ops: &[SOp], seq: &mut
 		Err(e) => out.problems.push(("scorer-does-not-read-back".into(), "scorer".into(), format!("after {}: {}", name(), e))),
 		Ok(re) => {
 			let re_obs = scorer_obs(&re, graph);
-			if re_obs != live_obs {
+			// Is the scorer's (unpersisted) notion of "now" the only difference? Then a neutral update at
+			// the current time (a failure report for a channel the graph does not know: no liquidity changes,
+			// only `last_update_time` is set) on both copies makes them agree again.
+			let only_now_differs = re_obs != live_obs && scorer_obs_with(&re, graph, false) == scorer_obs_with(&live, graph, false) && {
+				let (mut a, ca) = replay_scorer(graph, logger, seq);
+				let mut b = reread_scorer(graph, logger, &bytes).expect("just decoded");
+				let mut unknown = make_path(0, 0);
+				unknown.hops[0].short_channel_id = 999;
+				a.payment_path_failed(&unknown, 999, Duration::from_secs(ca));
+				b.payment_path_failed(&unknown, 999, Duration::from_secs(ca));
+				scorer_obs(&a, graph) == scorer_obs(&b, graph)
+			};
+			if only_now_differs {
+				// only the term that depends on the scorer's notion of "now" differs
+				out.problems.push((
+					"scorer-roundtrip-changes-observable-state".into(),
+					"scorer|fields=[last_update_time]".into(),
+					format!("after {}: channel_penalty_msat with a non-zero probing_diversity_penalty_msat differs after a round trip: {}", name(), first_diff(&live_obs, &re_obs)),
+				));
+			} else if re_obs != live_obs {
+				if std::env::var("MC_AUX_DEBUG").is_ok() {
+					for (a, b) in live_obs.split("c").zip(re_obs.split("c")) {
+						if a != b {
+							eprintln!("LIVE c{}\nREAD c{}", a, b);
+						}
+					}
+				}
 				out.problems.push(("scorer-roundtrip-changes-observable-state".into(), "scorer".into(), format!("after {}: {}", name(), first_diff(&live_obs, &re_obs))));
 			}
 			// canonical re-encoding of the re-read object decodes to the same observable state again
@@ -305,7 +341,9 @@ fn scorer_dfs(graph: &Arc<Graph>, logger: &Arc<McLogger>, ops: &[SOp], seq: &mut
 				out.tlv += 1;
 				match (reread_scorer(graph, logger, &b), odd) {
 					(Ok(re), true) => {
-						if scorer_obs(&re, graph) != live_obs {
+						// same object as the untouched bytes decode to
+						let base = reread_scorer(graph, logger, &bytes).map(|x| scorer_obs(&x, graph)).unwrap_or_default();
+						if scorer_obs(&re, graph) != base {
 							out.problems.push(("odd-tlv-changes-object".into(), "scorer".into(), format!("after {}", name())));
 						}
 					},
